@@ -70,7 +70,7 @@ CONFIGS = {
                          '-fsanitize=memory',
                          '-fsanitize-memory-track-origins'],
                  ldflags=['-fsanitize=memory']),
-    'tsan': dict(cc='clang', cxx=None,
+    'tsan': dict(cc='clang', cxx='clang++',
                  cflags=['-O1', '-g', '-fsanitize=thread'],
                  ldflags=['-fsanitize=thread', '-pthread']),
     'oom': dict(cc='clang', cxx='clang++',
@@ -181,7 +181,10 @@ def build(prop, config, drivers):
         elif d == 'fuzz':
             cmd = [cfg['cc'], '-o', exe, drvobjs[d]] + objs + cfg['ldflags'] + libs
         else:
-            cmd = [cfg['cc'], '-o', exe, drvobjs[d]] + objs + cfg['ldflags'] + libs
+            ld = cfg['ldflags']
+            if config == 'fuzz':
+                ld = ['-fsanitize=fuzzer-no-link,address']
+            cmd = [cfg['cc'], '-o', exe, drvobjs[d]] + objs + ld + libs
         r = run(cmd)
         if r.returncode != 0:
             raise RuntimeError('link failed: %s\n%s' % (' '.join(cmd), r.stdout))
@@ -491,6 +494,11 @@ def main(argv):
 
     # --------------------------------------------------------- rapidcheck
     rc_configs = [c for c in configs if 'rc' in bins[c]]
+    # configurations without a C++ driver (MSan) replay the cases generated by
+    # the rapidcheck workers of `dump_from`
+    dump_configs = [c for c in configs if 'rc' not in bins[c]]
+    dump_from = tspec.get('dump_from', rc_configs[0] if rc_configs else None)
+    dumps = []
     if rc_configs and not (candidates and not args.keep_going):
         shares = tspec.get('shares') or {c: 1 for c in rc_configs}
         total_share = sum(shares.get(c, 1) for c in rc_configs)
@@ -514,6 +522,11 @@ def main(argv):
                 if 'maxlen' in tspec:
                     env['VF_MAXLEN'] = str(tspec['maxlen'])
                 env['VF_SETMAX'] = str(tspec.get('setmax', 1 << 21))
+                if dump_configs and c == dump_from:
+                    env['VF_DUMP_CASES'] = os.path.join(work, tag + '.dump')
+                    env['VF_DUMP_EVERY'] = str(tspec.get('dump_every', 1))
+                    env['VF_DUMP_MAX'] = str(tspec.get('dump_max', 20000))
+                    dumps.append(env['VF_DUMP_CASES'])
                 s = derive_seed(args.seed, wi, c)
                 env['RC_PARAMS'] = ('seed=%d max_success=%d max_size=100 '
                                     'max_discard_ratio=100' % (s, per))
@@ -547,6 +560,52 @@ def main(argv):
             else:
                 log(out[-4000:])
                 log('[%s] worker %s failed without leaving a case (rc=%s)' %
+                    (prop, tag, rc_))
+                return 2
+
+    # -------------------------------- replay generated cases (MSan etc.)
+    if dump_configs and dumps and not (candidates and not args.keep_going):
+        cmds = []
+        meta = []
+        for c in dump_configs:
+            for i, d in enumerate(dumps):
+                if not os.path.exists(d):
+                    continue
+                tag = 'dr-%s-%d' % (c, i)
+                env = dict(env0)
+                st = os.path.join(work, tag + '.json')
+                env['VF_STATS'] = st
+                env['VF_FAIL'] = os.path.join(work, tag + '.fail')
+                env['VF_CRASH'] = os.path.join(work, tag + '.crash')
+                if spec.get('case_timeout'):
+                    env['VF_CASE_TIMEOUT'] = str(spec['case_timeout'] * 3)
+                statfiles.append(st)
+                cmds.append(([bins[c]['replay'], '--quiet', '--dump', d], env,
+                             os.path.join(work, tag + '.log'),
+                             tspec.get('rc_timeout', 1800)))
+                meta.append((c, tag))
+        tdr = time.time()
+        rcs = []
+        for k in range(0, len(cmds), NCPU):
+            rcs += run_workers(cmds[k:k + NCPU])
+        log('[%s] dump replay (%s): %d processes, %.1fs' %
+            (prop, ','.join(dump_configs), len(cmds), time.time() - tdr))
+        for (c, tag), rc_, cmd in zip(meta, rcs, cmds):
+            out = open(cmd[2], 'rb').read().decode('utf-8', 'replace')
+            if rc_ == 0:
+                continue
+            fail = os.path.join(work, tag + '.fail')
+            crash = os.path.join(work, tag + '.crash')
+            if rc_ is None:
+                inconclusive.append('dump replay %s hit the wall-clock limit' % tag)
+            elif os.path.exists(fail):
+                candidates.append(Candidate(fail, c, out[-3000:], 'dump-replay'))
+            elif os.path.exists(crash):
+                candidates.append(Candidate(crash, c, out[-4000:],
+                                            'dump-replay-crash'))
+            else:
+                log(out[-4000:])
+                log('[%s] %s failed without leaving a case (rc=%s)' %
                     (prop, tag, rc_))
                 return 2
 
@@ -619,7 +678,7 @@ def main(argv):
             continue
         site = failure_site(out)
         path = cand.path
-        if cand.engine in ('rapidcheck-crash', 'libfuzzer', 'regression-crash'):
+        if cand.engine in ('rapidcheck-crash', 'libfuzzer', 'regression-crash', 'dump-replay-crash'):
             path = minimise(replay_bin, env, cand.path, site)
         n_ok = 0
         for _ in range(3):
